@@ -12,6 +12,7 @@ import (
 	"path/filepath"
 	"strings"
 	"testing"
+	"time"
 
 	"github.com/btcsuite/btcd/btcec/v2/schnorr/musig2"
 	"github.com/btcsuite/btcd/txscript/v2"
@@ -112,6 +113,7 @@ type c4Justice struct {
 	BSL         []c4SL `json:"bsl"`
 	BAll        int    `json:"ball"` // batched case: spend-all justice tx built and every input valid
 	Rec         int    `json:"rec"`  // y = 2: the chain watcher handed over a retribution for exactly this state
+	Hung        int    `json:"hung"` // y = 2: handleCommitSpend did not return
 	Note        string `json:"note"` // first interpreter error, for the human reader only
 }
 
@@ -640,11 +642,23 @@ func c4Watch(victim, cheater *c4Side, w *chainWatcher, got *[]*lnwallet.BreachRe
 	txid := breachTx.TxHash()
 	ln.Hint = int64(w.cfg.extractStateNumHint(breachTx, w.stateHintObfuscator))
 	*got = nil
-	err := w.handleCommitSpend(&chainntnfs.SpendDetail{
-		SpenderTxHash: &txid, SpendingTx: breachTx, SpendingHeight: 100,
-	})
-	if err != nil {
-		ln.Err = err.Error()
+	// in its own goroutine: a watcher that takes the revoked transaction for
+	// something else may wait for subscribers that do not exist here
+	done := make(chan error, 1)
+	go func() {
+		done <- w.handleCommitSpend(&chainntnfs.SpendDetail{
+			SpenderTxHash: &txid, SpendingTx: breachTx, SpendingHeight: 100,
+		})
+	}()
+	select {
+	case err := <-done:
+		if err != nil {
+			ln.Err = err.Error()
+		}
+	case <-time.After(60 * time.Second):
+		ln.Err = "handleCommitSpend did not return (no breach hand-over within 60s)"
+		ln.Hung = 1
+		return ln
 	}
 	if len(*got) == 1 && (*got)[0].RevokedStateNum == h && (*got)[0].BreachTxHash == txid {
 		ln.Rec, ln.TxID = 1, 1
@@ -932,8 +946,14 @@ func TestVerifC04Justice(t *testing.T) {
 				t.Fatalf("newChainWatcher: %v", err)
 			}
 			for h := uint64(1); h < top; h++ {
-				out.Emit(c4Watch(victim, cheater, w, &got, h, noAmt))
+				wl := c4Watch(victim, cheater, w, &got, h, noAmt)
+				out.Emit(wl)
 				njust++
+				if wl.Hung == 1 {
+					// the watcher's goroutine is still in there: no further
+					// heights through this watcher
+					break
+				}
 			}
 		}
 	}
